@@ -153,3 +153,41 @@ Fixpoint wb_run (steps : list cstep) (w : wbuf) : res unit (list cevent * wbuf) 
       | Err e => Err e | Panic s => Panic s
       end
   end.
+
+(* ---- the provided methods of bytes::Buf that WriteBuf does NOT override (the translator pins the method set of
+   `impl Buf for WriteBuf` to {remaining, chunk, advance}), as bytes 1.x defines them on top of the three ---- *)
+
+(* chunks_vectored(dst) with a non-empty dst: one slice, the current chunk, or none when nothing remains *)
+Definition wb_chunks_vectored (w : wbuf) : res unit (list bytes) :=
+  match wb_remaining w with
+  | Ok r => if r =? 0 then Ok [] else match wb_chunk w with Ok c => Ok [c] | Err e => Err e | Panic s => Panic s end
+  | Err e => Err e
+  | Panic s => Panic s
+  end.
+
+(* copy_to_bytes(k): asserts k <= remaining(), then put(self.take(k)): chunk-bounded copies until k bytes are out *)
+Fixpoint wb_copy_loop (fuel : nat) (left : N) (w : wbuf) : res unit (bytes * wbuf) :=
+  if left =? 0 then Ok ([], w) else
+  match fuel with
+  | O => Panic 37
+  | S f =>
+      match wb_chunk w with
+      | Ok c =>
+          let n := N.min left (len c) in
+          if n =? 0 then Panic 38 else
+          match wb_advance n w with
+          | Ok w' => match wb_copy_loop f (left - n) w' with
+                     | Ok (out, w'') => Ok (firstn (N.to_nat n) c ++ out, w'')
+                     | Err e => Err e | Panic s => Panic s
+                     end
+          | Err e => Err e | Panic s => Panic s
+          end
+      | Err e => Err e | Panic s => Panic s
+      end
+  end.
+Definition wb_copy_to_bytes (k : N) (w : wbuf) : res unit (bytes * wbuf) :=
+  match wb_remaining w with
+  | Ok r => if r <? k then Panic 36 else wb_copy_loop (N.to_nat k) k w
+  | Err e => Err e
+  | Panic s => Panic s
+  end.
